@@ -74,6 +74,17 @@ var locAccessors = map[string][]string{
 var mergedAccessors = []string{"Form", "FormValue", "DefaultQuery", "Bind", "ShouldBind", "BodyParser", "AllParams"}
 
 func checkC05(c *Ctx, r *Report) {
+	// the validator rules that reach the generated router are the ones written in the annotation,
+	// byte for byte (plus `required` where the parameter kind demands it): rule values may contain
+	// blanks (`oneof=red green blue`), so nothing normalises the text on the way
+	defer func() {
+		ruleHelperShape(c, r, "C05.e", helperShape{Fn: "core/metadata.GetParamValidator",
+			AllowedCalls: []string{"(core/annotations.AnnotationHolder).FindFirstByValue", "(*core/annotations.AnnotationHolder).FindFirstByValue", "core/annotations.GetCastProperty", "core/annotations.GetCastProperty[string]", "fmt.Errorf", "core/metadata.appendParamRequiredValidation"},
+			Why:          "the validator string of a parameter is the annotation's `validate` property as written (appendParamRequiredValidation only adds `required`)"})
+		ruleHelperShape(c, r, "C05.e", helperShape{Fn: "core/metadata.appendParamRequiredValidation",
+			AllowedCalls: []string{"strings.Split"}, MustConsts: []string{",", "required"},
+			Why:          "`required` is appended to the written rules, which are otherwise left as they are"})
+	}()
 	defer func() { ruleRegexInventory(c, r, "C05.a", "core/metadata", "core/annotations") }()
 	r.NotDecided = append(r.NotDecided, "value round-tripping through five HTTP frameworks (header canonicalisation, percent-decoding, integer widths beyond the strconv bit size spelled in the template)", "the conversion switch beyond arm coverage and bit sizes")
 	r.Assume = append(r.Assume, "accessor vocabularies per location are enumerated from the five engines' current templates (tables in the checker); identifiers are matched by spelling in template Go text")
@@ -491,6 +502,21 @@ func checkEngineParsing(c *Ctx, r *Report, cl map[string]string) {
 			}
 			o := r.add(cl["c"], "tpl-types", en+":MethodParameterList", en+": arguments are passed in FuncParams (signature) order: context params get the request context, by-address params the pointer, others the dereferenced value", []string{mp.File}, sites, viol)
 			o.NonTrivial = true
+		}
+
+		// the text that is converted is the text the request carried: between the accessor and the
+		// conversion nothing rewrites `<name>Raw` / `<name>RawArray` (no splitting, trimming, unescaping:
+		// `?tags=a%2Cb` is one element `a,b`)
+		if pt := eng.Partials["RequestSwitchParamType"]; pt != nil {
+			viol := ""
+			sites := []string{pt.File + ":1"}
+			ts := goToks(flattenProgram(pt.Prog, nil))
+			for i := 0; i+1 < len(ts); i++ {
+				if ts[i].Tok == token.IDENT && strings.HasPrefix(ts[i].Lit, "M_ToLowerCamel_NameRaw") && !strings.HasPrefix(ts[i].Lit, "M_ToLowerCamel_NameRawPtr") && ts[i+1].Tok == token.ASSIGN {
+					viol = fmt.Sprintf("%s: the conversion partial re-assigns %s before converting it: the value the method receives is no longer the text the request carried in that location", pt.File, strings.Replace(ts[i].Lit, "M_ToLowerCamel_Name", "<name>", 1))
+				}
+			}
+			r.add(cl["b"], "tplgo", en+":RequestSwitchParamType:raw-text-unmodified", en+": the raw request text is converted as it is", []string{pt.File}, sites, viol)
 		}
 
 		// the body is decoded as the route declares it: bindAndValidateBody dispatches on the
